@@ -153,17 +153,25 @@ class CacheView(Table):
     def __iter__(self):
 
         # serve whatever is in the cache first
+        # (N.B., the cache is shared by all iterators over this view, and
+        # another iterator may be extending it while this one is running, so
+        # keep count of the rows actually served)
+        nserved = 0
         for row in self.cache:
+            nserved += 1
             yield row
 
         if not self.cachecomplete:
 
             # serve the remainder from the inner iterator
             it = iter(self.inner)
-            for row in islice(it, len(self.cache), None):
-                # maybe there's more room in the cache?
-                if not self.n or len(self.cache) < self.n:
+            for row in islice(it, nserved, None):
+                # maybe there's more room in the cache? (only ever append the
+                # row that comes next after the rows cached so far)
+                if len(self.cache) == nserved \
+                        and (not self.n or len(self.cache) < self.n):
                     self.cache.append(row)
+                nserved += 1
                 yield row
 
             # does the cache contain a complete copy of the inner table?
